@@ -145,6 +145,62 @@ def check_abstract(depths: Sequence[int], actions: Sequence[Optional[str]], exts
     return out
 
 
+def check_extprune(depths: Sequence[int], node: int, exc: str, when: str, others: Sequence[str]) -> List[Tuple[str, str]]:
+    """An *extension* raises a pruning exception from its visit method at one node.  What that means for the rest of the walk is
+    not documented; the one clause that is asserted: every extension that entered a node also leaves it, exactly once."""
+    from pydoctor import visitor
+    tree = depths_to_tree(depths)
+    trace: List[Tuple[str, str, int]] = []
+
+    class N:
+        def __init__(self, i: int) -> None:
+            self.i = i
+            self.children: List['N'] = []
+    nodes = {i: N(i) for i in tree}
+    for p_, cs in tree.items():
+        nodes[p_].children = [nodes[c] for c in cs]
+
+    class Main(visitor.Visitor):
+        @classmethod
+        def get_children(cls, ob):
+            return ob.children
+
+        def visit_N(self, ob):
+            trace.append(('main', 'visit', ob.i))
+
+        def depart_N(self, ob):
+            trace.append(('main', 'depart', ob.i))
+
+    def mk(eid: str, w: str, raises: bool):
+        class E(visitor.VisitorExt):
+            pass
+        E.when = getattr(visitor.When, w)
+
+        def visit_N(self, ob):
+            trace.append((eid, 'visit', ob.i))
+            if raises and ob.i == node:
+                raise getattr(Main, exc)()
+        E.visit_N = visit_N
+        E.depart_N = lambda self, ob: trace.append((eid, 'depart', ob.i))
+        return E
+    classes = [mk('pruner_' + when, when, True)] + [mk('e%d_%s' % (i, w), w, False) for i, w in enumerate(others)]
+    desc = "tree(depths)=%s, extension %s raises %s at node %d, other extensions %s" % (list(depths), when, exc, node, list(others))
+    try:
+        Main(visitor.ExtList(*classes)).walkabout(nodes[0])
+    except BaseException as e:
+        return [('walk-raises', '%s: walkabout raised %s: %s' % (desc, type(e).__name__, e))]
+    out: List[Tuple[str, str]] = []
+    for who in sorted({w for w, _k, _n in trace if w != 'main'}):
+        for n in tree:
+            v = sum(1 for w, k, i in trace if w == who and k == 'visit' and i == n)
+            d = sum(1 for w, k, i in trace if w == who and k == 'depart' and i == n)
+            if v > 1:
+                out.append(('unbalanced', '%s: %s enters node %d %d times' % (desc, who, n, v)))
+            elif v == 1 and d != 1:
+                out.append(('unbalanced', '%s: %s entered node %d and left it %d times' % (desc, who, n, d)))
+    return out[:2]
+
+
 # ------------------------------------------------------------------ real builder
 
 def _builder_case(src: str) -> Tuple[List[Tuple[str, str]], Dict[str, Any]]:
@@ -302,6 +358,7 @@ def plan(tier: str, seed: int, scale: float = 1.0) -> List[Any]:
         shapes = list(tree_shapes(size))
         for si, sh in enumerate(shapes):
             items.append({'kind': 'enum', 'depths': sh})
+    items.append({'kind': 'extprune'})
     hn = int((4000 if tier == 'quick' else 200000) * scale)
     for i in range(n):
         items.append({'kind': 'hyp', 'n': hn // n, 'seed': seed * 1000 + i})
@@ -346,6 +403,22 @@ def work(item: Dict[str, Any]) -> Acc:
         acc.samples.append({'tree_depths': depths, 'action_assignments': len(ACTIONS) ** len(depths), 'ext_configs': len(cfgs)})
         acc.exhaustive_parts.append("all trees<=N nodes x actions x 20 ext configs")
         acc.classes['tree-size-%d' % len(depths)] += len(ACTIONS) ** len(depths) * len(cfgs)
+    elif kind == 'extprune':
+        for size in range(1, 5):
+            for depths in tree_shapes(size):
+                for node in range(size):
+                    for exc in ('SkipNode', 'SkipChildren', 'SkipSiblings', 'SkipDeparture'):
+                        for when in WHENS:
+                            for others in ([], ['BEFORE', 'AFTER'], ['INNER', 'OUTTER'], [when]):
+                                acc.case(nontrivial=True, distinct_by_construction=True, classes=['extension-prunes'])
+                                d = check_extprune(depths, node, exc, when, others)
+                                if d:
+                                    try:
+                                        judge(ID, acc, {'kind': 'extprune', 'depths': depths, 'node': node, 'exc': exc, 'when': when, 'others': others}, d)
+                                    except Violation as v:
+                                        acc.violations.append(v.as_dict())
+                                        return acc
+        acc.exhaustive_parts.append('a pruning exception raised by one extension: all trees<=4 nodes x node x 4 exceptions x 4 timings x 4 companion sets')
     elif kind == 'hyp':
         def body(c):
             acc.case(key=c, nontrivial=any(c['actions']) and bool(c['exts']), sample=c, classes=['hyp-tree'])
@@ -369,4 +442,6 @@ def work(item: Dict[str, Any]) -> Acc:
 def replay(case: Dict[str, Any]) -> List[Tuple[str, str]]:
     if case.get('kind') == 'builder':
         return _builder_case(case['src'])[0]
+    if case.get('kind') == 'extprune':
+        return check_extprune(case['depths'], case['node'], case['exc'], case['when'], case['others'])
     return check_abstract(case['depths'], case['actions'], [tuple(e) for e in case['exts']])
